@@ -47,7 +47,8 @@ type SimConn struct {
 	eofAt   int64 // -1: none
 
 	reads, writes int
-	ops           int
+	ops           int64
+	budget        int64
 
 	Out     []byte // bytes of writes the transport reported as successful
 	Raw     []byte // everything that reached the wire, including partial failed writes
@@ -71,6 +72,16 @@ type SimConn struct {
 
 func newSimConn(rt *Runtime, id int, cc *ConnCase) *SimConn {
 	c := &SimConn{rt: rt, ID: id, cc: cc, eofAt: -1, FaultFired: map[string]int{}}
+	// operation budget: generous, but proportional to what the script feeds
+	var total int64
+	for _, st := range cc.Steps {
+		for i := range st.Msgs {
+			for _, ch := range st.Msgs[i].Encode() {
+				total += ch.Len()
+			}
+		}
+	}
+	c.budget = 100000 + 3*total
 	for _, f := range cc.Faults {
 		if f.Kind == "eof-at-byte" {
 			c.eofAt = int64(f.At)
@@ -96,10 +107,7 @@ func (c *SimConn) fault(kind string, idx int) *Fault {
 	return nil
 }
 
-const (
-	afterEndBudget = 100
-	opsBudget      = 200000
-)
+const afterEndBudget = 100
 
 func (c *SimConn) wedge(why string) {
 	c.Wedged = true
@@ -129,7 +137,7 @@ func (c *SimConn) Read(p []byte) (int, error) {
 	c.rt.K.Yield(c.task, "read")
 	c.Started = true
 	c.ops++
-	if c.ops > opsBudget {
+	if c.ops > c.budget {
 		c.wedge("operation budget exhausted")
 	}
 	if c.Closed > 0 {
@@ -246,7 +254,7 @@ func neverReady() bool { return false }
 func (c *SimConn) Write(p []byte) (int, error) {
 	c.rt.K.Yield(c.task, "write")
 	c.ops++
-	if c.ops > opsBudget {
+	if c.ops > c.budget {
 		c.wedge("operation budget exhausted")
 	}
 	if c.Closed > 0 {
